@@ -427,6 +427,8 @@ def _search_loop(E, reg, contract, fn, owner, ptys, rng, todo, compiled, reqs, g
                 if DEBUG:
                     print("search: clause evaluation failed:", type(e).__name__, e)
                 continue
+            E.search_evals = getattr(E, "search_evals", {})
+            E.search_evals[oid] = E.search_evals.get(oid, 0) + 1
             if _STATS is not None and oid in _STATS:
                 _STATS[oid]["evaluations"] += 1
                 if result:
